@@ -100,3 +100,9 @@ PROPS["C18"] = {"families": ["sqlstore", "sqltimeout"],
 
 PROPS["C11"]["families"] = ["engine", "memroles"]
 PROPS["C11"]["assumptions"] = PROPS["C11"]["assumptions"] + ["memrolescheduler: goroutine / mutex semantics are modelled as a transition system (coq/model/MemRoles.v), not Go's memory model; the harness observes overlap with counters under real goroutine schedules (an acceptor: the winner among waiters is not determined)"]
+
+PROPS["C07"]["families"] = ["engine", "connrt"]
+PROPS["C07"]["assumptions"] = PROPS["C07"]["assumptions"] + ["connector round trip: encoding/json is not modelled; dec(enc e) = e is a Section hypothesis of the Coq theorem and is what the connrt family exercises on the real connectorEventToEvent / streamerEventToConnectorEvent (valid UTF-8 strings incl. characters JSON escapes, nil / empty / several headers, timestamps with nanoseconds in six zones, compared as instants); strings that are not valid UTF-8 are outside the domain (JSON replaces them); FNV-1 64 is modelled in Coq (model/Connector.v) and compared on every event, also for several events through one hasher"]
+PROPS["C07"]["explanation"] += "; connector events through the real wrap/unwrap functions: every field compared, event ID = int64(fnv64(ID))"
+PROPS["C10"]["families"] = ["shard", "launch", "connrt"]
+PROPS["C10"]["explanation"] += "; connector event IDs: int64(fnv64(ID)) of the real conversion (also several events through one hasher, as a connector consumer process does) vs the Coq model of FNV-1"
